@@ -187,3 +187,24 @@ def restaticising_with_an_elapsed_interval_resamples(S):
     r1 = S.method(st, "sample_points")
     S.ensure("elapsed-interval-forces-a-fresh-draw", r1 is not old and len(inner.calls) == 1)
     S.ensure("counter-restarts", zint(S.getattr(st, "counter")) == 0)
+
+
+@scenario("C01", [ATS + ".sample_points", ARS + ".sample_points"], configs=["threshold", "random"], name="adaptive_sampler_points_stay_in_the_domain")
+def adaptive_sampler_points_stay_in_the_domain(S):
+    """inductive step for C01 on the adaptive samplers: from an ARBITRARY retained point set whose rows all lie in the
+    domain (invariant; established by the first call = a plain uniform sample), one call with an arbitrary loss tensor
+    returns a point set whose rows all lie in the domain (each row is the retained or the freshly drawn row r)."""
+    thr = S.cfg == "threshold"
+    dom = abstract_domain(S, "D", S.new(R2, "x"))
+    n = S.int("n", 1)
+    smp = S.new(ATS, dom.obj, S.real("ratio"), n_points=n) if thr else S.new(ARS, dom.obj, n_points=n)
+    fL = z3.Function("LP", z3.IntSort(), z3.IntSort(), z3.RealSort())
+    LP = S.tensor("LP", [n, 2], mutable=True, on_access=lambda idx, v: S.ctx.axiom(z3.Implies(z3.And(zint(idx[0][0]) >= 0, zint(idx[0][0]) < zint(n)), dom.in_pred([fL(zint(idx[0][0]), z3.IntVal(c)) for c in range(2)], []))))
+    smp.f["last_points"] = S.new(POINTS, LP, S.new(R2, "x"))
+    loss = S.tensor("loss", [n])
+    out = S.method(smp, "sample_points", loss)
+    t = out.f["_t"].val
+    ok = t.rank == 2 and t.shape[1].concrete() == 2
+    S.ensure("n-rows-two-columns", ok and t.shape[0].size_term() == zint(n))
+    if ok:
+        S.forall("every-row-in-the-domain", out.f["_t"], lambda q: dom.in_pred([zreal(t.at([q[0], (c,)])) for c in range(2)], []))
